@@ -41,6 +41,9 @@ static RealMatrix toMat(std::vector<double> const& v, std::size_t r, std::size_t
 static bool same(RealMatrix const& a, RealMatrix const& b){ if(a.size1() != b.size1() || a.size2() != b.size2()) return false; for(std::size_t i = 0; i != a.size1(); ++i) for(std::size_t j = 0; j != a.size2(); ++j) if(!(a(i,j) == b(i,j)) && !(std::isnan(a(i,j)) && std::isnan(b(i,j)))) return false; return true; }
 static bool sameV(RealVector const& a, RealVector const& b){ if(a.size() != b.size()) return false; for(std::size_t i = 0; i != a.size(); ++i) if(!(a(i) == b(i))) return false; return true; }
 
+// `probe gradient-size 0` switches the check `gradient.size() == numberOfParameters()` for a non-empty result object off
+// (finding F-C04-5: parameter-less layers leave the gradient untouched)
+static bool g_sizeProbe = true;
 // everything the property says about one model object, checked on the real code
 template<class Model>
 std::string oracle(Model& model, RealMatrix const& X, RealMatrix const& C, RealVector const& p, bool exactSingle, bool withDeriv = true, bool inputDeriv = true, double ptol = 0.0, bool bufferProbe = true){
@@ -81,6 +84,10 @@ std::string oracle(Model& model, RealMatrix const& X, RealMatrix const& C, RealV
 	RealVector g3(g1.size(), 1.0);
 	model.weightedParameterDerivative(X, outS, C, *st, g3);
 	if(!sameV(g1, g3)) bad += " !oracle parameter-derivative-depends-on-previous-buffer-content";
+	// ... nor its previous size
+	RealVector g4(model.numberOfParameters() + 2, 1.0);
+	if(g_sizeProbe) model.weightedParameterDerivative(X, outS, C, *st, g4); else g4 = g1;
+	if(g4.size() != model.numberOfParameters()) bad += " !oracle gradient-not-resized";
 	if(g1.size() != model.numberOfParameters()) bad += " !oracle gradient-size";
 	return bad;
 }
@@ -451,6 +458,7 @@ int main(){
 	while(std::getline(std::cin, line)){
 		auto secs = sections(line);
 		if(secs.size() == 1 && secs[0].size() == 2 && secs[0][0] == "mode"){ floatMode = secs[0][1] == "float"; std::cout << "ok\n"; continue; }
+		if(secs.size() == 1 && secs[0].size() == 3 && secs[0][0] == "probe"){ if(secs[0][1] == "gradient-size") g_sizeProbe = secs[0][2] == "1"; std::cout << "ok\n"; continue; }
 		std::string out = "bad-op";
 		std::vector<double> p, xs, cs, q2; std::vector<std::size_t> d;
 		if(secs.size() == 4 && secs[0].size() == 6 && secs[0][0] == "dense" && vh::allNat(secs[0], 2, d) && d.size() == 4 && nums(secs[1], p) && nums(secs[2], xs) && nums(secs[3], cs)){
